@@ -120,7 +120,13 @@ class Builder:
                 inc = os.path.join(_tree.REPO, _tree.CODE_REL)
             cxx = COMPILERS[tc[0]]
             objs = []
+            for name in sorted(sources):  # headers first: they only have to be there
+                if not name.endswith(".cc"):
+                    with open(os.path.join(src, name), "w") as f:
+                        f.write(sources[name])
             for name in sorted(sources):
+                if not name.endswith(".cc"):
+                    continue
                 p = os.path.join(src, name)
                 with open(p, "w") as f:
                     f.write(sources[name])
